@@ -24,6 +24,7 @@ type Transport struct {
 
 func (t *Transport) Dereference(c context.Context, iri *url.URL) ([]byte, error) {
 	w := t.W
+	w.use(iri)
 	w.point(c, "tp.Dereference")
 	idx, inj := w.ev(c, "tp.Dereference", true, IRI(iri))
 	if inj {
@@ -59,6 +60,7 @@ func (t *Transport) Dereference(c context.Context, iri *url.URL) ([]byte, error)
 
 func (t *Transport) Deliver(c context.Context, b []byte, to *url.URL) error {
 	w := t.W
+	w.use(to)
 	w.point(c, "tp.Deliver")
 	idx, inj := w.ev(c, "tp.Deliver", true, t.Box, IRI(to))
 	w.setResult(idx, "", nil, string(b))
@@ -73,6 +75,7 @@ func (t *Transport) Deliver(c context.Context, b []byte, to *url.URL) error {
 
 func (t *Transport) BatchDeliver(c context.Context, b []byte, recipients []*url.URL) error {
 	w := t.W
+	w.use(recipients...)
 	w.point(c, "tp.BatchDeliver")
 	args := []string{t.Box}
 	for _, r := range recipients {
@@ -262,6 +265,24 @@ func (f Fed) FilterForwarding(c context.Context, potential []*url.URL, a pub.Act
 	case "first":
 		if len(potential) > 0 {
 			out = potential[:1]
+		}
+	case "last":
+		if len(potential) > 0 {
+			out = potential[len(potential)-1:]
+		}
+	case "all-fresh", "reversed-fresh":
+		// equal IRIs, other values: what an application that re-parses or
+		// sorts its choice hands back
+		for _, u := range potential {
+			if u != nil {
+				c := *u
+				out = append(out, &c)
+			}
+		}
+		if w.Cfg.Filter == "reversed-fresh" {
+			for i, j := 0, len(out)-1; i < j; i, j = i+1, j-1 {
+				out[i], out[j] = out[j], out[i]
+			}
 		}
 	default:
 		out = potential
